@@ -48,7 +48,7 @@ def run(ctx):
         cases += [{"kind": "c15", "inst": inst, "L": L, "P": dict(je.DEFAULT_P), "shape": "small-scope"} for inst, L in je.small_scope()]
         ctx.notes["exhaustive_small_scope"] = "all instances with <= 2 jobs x <= 2 operations on 2 machines, durations <= 2, slack 0..2 (468 cases), all bitstrings up to 10 qubits"
     for c in cases:
-        summ = je.examine(ctx, batch, c, {"C15"}, ctx.rng)
+        summ = je.examiner(c)(ctx, batch, c, {"C15"}, ctx.rng)
         n = summ["n"]
         ctx.tally(f"shape:{c.get('shape', 'corpus')}")
         ctx.tally("qubits:" + ("rejected" if n is None else "0" if n == 0 else "1-4" if n <= 4 else "5-8" if n <= 8 else "9-10" if n <= 10 else "11-14"))
@@ -63,7 +63,7 @@ def replay(ctx, payload):
         return translate.replay(ctx, payload, "C15")  # a replay file written for a broken translation tie
     c = payload.get("case") or payload.get("failing_input")
     batch = je.Batch()
-    je.examine(ctx, batch, c, {"C15"}, ctx.rng)
+    je.examiner(c)(ctx, batch, c, {"C15"}, ctx.rng)
     for v in ctx.violations:
         print("oracle:", v["key"], "-", v["what"])
     print("impl-vs-property:", "FAILS" if ctx.violations else "ok")
